@@ -299,6 +299,19 @@ def h_unpickle(ctx):
     with_lru(ctx, body)
 
 
+def h_value_history(ctx):
+    """numeric query values: the outcome does not depend on which equal-comparing value was converted before
+    (0.0 == -0.0, 1 == 1.0 == True); finite type matrix, executed concretely"""
+    P = ctx.P
+    u = P.URL("http://h/")
+    for first, second, exp in ((0.0, -0.0, "n=-0.0"), (-0.0, 0.0, "n=0.0"), (1, 1.0, "n=1.0"), (1.0, 1, "n=1"), (2.5, 2.5, "n=2.5")):
+        for op in ("with_query", "update_query", "extend_query"):
+            getattr(u, op)({"n": first})
+            r = call(getattr(u, op), {"n": second})
+            ctx.check("numeric-value-rendered-independently-of-history", r[0] == "ok" and r[1].raw_query_string == exp, (first, second, op))
+    ctx.observe("done", True)
+
+
 SKELS = [("auth", ["http://u", NS, ":p@h:81/a/b.c?x=1#f"]), ("path", ["http://h/a", NS, "/b.c", NS, "?x=1&y=2#f"]), ("query", ["//h/p?", NS, "=", NS, "&k=v"]),
          ("frag", ["x://h:0/p#", NS, NS]), ("relative", [NS, "/b?q#f"]), ("escapes", ["http://h/%c3", NS, "?%a9=", NS, "#%c3%a9"])]
 MODS = ["with_user", "with_password", "with_path", "with_query", "update_query", "extend_query", "with_fragment", "with_name", "with_suffix",
@@ -347,4 +360,5 @@ def families(tier):
                 fams.append(Family("kernel-history/%s/escape2-escape2" % name, h_kernel_history,
                                    dict(name=name, n=0, skeleton=[("ns",), "%", ("hex",), ("hex",)]), backends=("py", "c")))
     fams.append(Family("unpickle", h_unpickle, {}))
+    fams.append(Family("value-history-concrete", h_value_history, {}))
     return fams
